@@ -8,7 +8,7 @@ uncaught exception) compared with the reference rendering executed by CPython.
 """
 import re
 
-from .. import gen_prog
+from .. import gen_prog, scopeseq
 from ..pyside import run_python, behaviour
 
 ID = "C01"
@@ -26,6 +26,11 @@ ASSUMPTIONS = [
 
 def cases(tier, seed):
     yield from gen_prog.pool(tier)
+    # the scope machine (mv/scopeseq.py): every legal statement sequence, with the lines the reference scope model says it prints
+    for c in scopeseq.cases("C01", tier):
+        c["family"] = c["family"].replace("c01.", "", 1)
+        c["ref"] = "".join("print(%r)\n" % l for l in c["prints"])
+        yield c
 
 
 STMT_IF_IN_EXPR = re.compile(r"[=+\-*/%(\[,<>] *if [^\n]*: *\n|\belse +[^\n]*[=+\-*/%(\[,] *if [^\n]*: *\n")
@@ -56,6 +61,8 @@ def compare(case, ann, out_src, ref_b):
         tags = case["tags"] + ["annotate:%s" % ("on" if ann else "off")]
         if gb[1] != ref_b[1]:
             tags.append("exc:%s" % gb[1])
+        if case.get("alt_prints") is not None and gb == (tuple(case["alt_prints"]), None):
+            tags.append("out:function-scoped")   # exactly what Python's function scoping of the same statements prints (C01-F4)
         return {"family": "c01." + case["family"], "kind": "behaviour-differs",
                 "detail": "expected %s %s, got %s %s (%s)" % (list(ref_b[0])[:12], ref_b[1], list(gb[0])[:12], gb[1], got["exc_msg"][:120]),
                 "tags": tags, "observed": out_src[:1500]}
